@@ -68,6 +68,14 @@ func hasExt(md protoreflect.MessageDescriptor, b []byte, pred func(protoreflect.
 			return true // (whatever follows the key, well-formed or not)
 		}
 		k := protowire.ConsumeFieldValue(num, typ, b[n:])
+		if k < 0 && typ == protowire.VarintType {
+			// a varint protowire rejects as wider than 64 bits: the code under test (and the model) read on behind it
+			for k = 0; n+k < len(b) && b[n+k]&0x80 != 0; k++ {
+			}
+			if k++; n+k > len(b) {
+				return false
+			}
+		}
 		if k < 0 {
 			return false
 		}
